@@ -198,7 +198,7 @@ def run(chk):
     n5 = 0
     for p in paths_of(qw):
         if p.end[0] == "return" and path_facts(p).get(f"{qtq}.bits == 8") is True:
-            e = p.end[1]
+            e = strip_noop_calls(p.end[1])  # detach / clone / contiguous of the scale do not change what is quantized
             n5 += 1
             ok = isinstance(e, ast.Call) and U(e.func) == "SymmetricQuantizer.apply" and len(e.args) == 4 and U(e.args[0]) == tq and U(e.args[1]) == qtq
             if ok:
